@@ -14,6 +14,8 @@ through the index's), `api/src/term/_simple.rs` (`SimpleTerm`, `from_term`, `fro
 * `StrRef` = `MownStr`: `owned` ⇒ the value owns allocation `a` (released when the value is
   dropped); otherwise it only points into `a`.  A string of length 0 touches no memory.
 * `TermRef` = `SimpleTerm<'static>`.
+* a caller's term enters a store through `SimpleTerm::from_term`, string by string through `ensure_owned`
+  (`feedStr`): BOTH branches of `ensure_owned` are run by `World.step`, selected by `World.own` (op `via`).
 * table growth / rehash of the `HashMap`, growth of the `Vec`, moving a store (by value, into a
   `Box`, `mem::swap`, `mem::take`) move the *structs* (`MownStr` = pointer + length), never the
   string buffers they point to: they are the identity on `Heap` (ops `grow`, `box`, `mv`, `swap`, `take`).
@@ -35,6 +37,24 @@ structure Heap where
   /-- undefined behaviour has happened -/
   ub : Bool := false
   deriving Repr, DecidableEq, Inhabited
+
+/-- what the model assumes about the crate `mownstr` (each item is recognised in its source on every run:
+`Gen.mownStr`, tools/extractors/c10.py; `mownstr_as_modelled` in Props/C10.lean) -/
+structure MownStrShape where
+  /-- pointer + length: the bytes live out of line, moving the struct never moves them (`grow`, `mv`, `swap` …) -/
+  outOfLine : Bool
+  /-- `Clone` of a borrowed `MownStr` copies the pointer, of an owned one copies the bytes (`cloneRef`) -/
+  cloneBorrowedCopiesPointer : Bool
+  /-- `Drop` releases the buffer iff the string owns it (`TermRef.ownedIds`, `Heap.free`) -/
+  dropReleasesOwnedOnly : Bool
+  /-- `From<Box<str>>` / `From<String>` take the buffer over, no copy (`Heap.alloc` makes an owned string) -/
+  fromBoxTakesTheBuffer : Bool
+  /-- `borrowed()` is a pointer copy without the ownership bit (`borrowOf`) -/
+  borrowedIsPointerCopy : Bool
+  deriving Repr, DecidableEq, Inhabited
+
+/-- the reading of `mownstr` the functions below implement -/
+def MownStrShape.modelled : MownStrShape := ⟨true, true, true, true, true⟩
 
 /-- `MownStr` -/
 structure StrRef where
@@ -142,30 +162,7 @@ def readTermU (h : Heap) : TermRef → Heap × Term
 
 /-! ### `api/src/term/_simple.rs` -/
 
-def Heap.allocs (h : Heap) : List Str → Heap × List StrRef
-  | [] => (h, [])
-  | s :: ss =>
-    let (h1, r) := h.alloc s
-    let (h2, rs) := h1.allocs ss
-    (h2, r :: rs)
-
-def atomAlloc (h : Heap) (k : AKind) (ss : List Str) : Heap × TermRef :=
-  let (h1, rs) := h.allocs ss
-  (h1, .atom k rs)
-
-/-- `SimpleTerm::from_term(t)` for a caller's term `t`: every string goes through `ensure_owned`
-and ends up in a fresh buffer (lexical form first, then tag / datatype; `s`, `p`, `o` in order) -/
-def allocTerm (h : Heap) : Term → Heap × TermRef
-  | .iri s => atomAlloc h .iri [s]
-  | .bnode s => atomAlloc h .bnode [s]
-  | .var s => atomAlloc h .var [s]
-  | .lit l d => atomAlloc h .lit [l, d]
-  | .lang l t => atomAlloc h .lang [l, t]
-  | .triple s p o =>
-    let (h, a) := allocTerm h s
-    let (h, b) := allocTerm h p
-    let (h, c) := allocTerm h o
-    (h, .triple a b c)
+def borrowOf (r : StrRef) : StrRef := { r with owned := false }
 
 /-- `ensure_owned(m)`, the second `transmute` of the anchored files.
 `m.is_owned()`: `m.clone()` (a fresh buffer with a copy of the bytes) is transmuted to `'static`,
@@ -175,6 +172,44 @@ def ensureOwned (h : Heap) (m : StrRef) : Heap × StrRef :=
   let (h1, s) := h.read m
   let (h2, r) := h1.alloc s
   if m.owned then (h2.free m.a, r) else (h2, r)
+
+/-- one string of the CALLER's term on its way into a `SimpleTerm<'static>` (`FromTerm::from_term`): the
+accessor (`iri()`, `lexical_form()`, …) hands out a `MownStr` `m` whose bytes live in a buffer `b`, and
+`ensure_owned(m)` makes the `'static` string.  `own = true` (terms backed by `i32`, `f64`, `String` …; the
+harness' `via own`): `m` OWNS `b`, `ensure_owned` takes its `is_owned` branch — clone, transmute, and the drop
+of `m` releases `b`.  `own = false` (a `SimpleTerm`, `IriRef<&str>` …; `via ref`): `m` BORROWS `b` from the
+caller's term, `ensure_owned` copies, and `b` is released when the caller's term goes (here: at once). -/
+def feedStr (own : Bool) (h : Heap) (s : Str) : Heap × StrRef :=
+  let (h1, m) := h.alloc s
+  if own then ensureOwned h1 m
+  else
+    let (h2, r) := ensureOwned h1 (borrowOf m)
+    (h2.free m.a, r)
+
+def feedStrs (own : Bool) (h : Heap) : List Str → Heap × List StrRef
+  | [] => (h, [])
+  | s :: ss =>
+    let (h1, r) := feedStr own h s
+    let (h2, rs) := feedStrs own h1 ss
+    (h2, r :: rs)
+
+def atomAlloc (own : Bool) (h : Heap) (k : AKind) (ss : List Str) : Heap × TermRef :=
+  let (h1, rs) := feedStrs own h ss
+  (h1, .atom k rs)
+
+/-- `SimpleTerm::from_term(t)` for a caller's term `t`: every string goes through `ensure_owned`
+(`feedStr`; lexical form first, then tag / datatype; `s`, `p`, `o` in order) -/
+def allocTerm (own : Bool) (h : Heap) : Term → Heap × TermRef
+  | .iri s => atomAlloc own h .iri [s]
+  | .bnode s => atomAlloc own h .bnode [s]
+  | .var s => atomAlloc own h .var [s]
+  | .lit l d => atomAlloc own h .lit [l, d]
+  | .lang l t => atomAlloc own h .lang [l, t]
+  | .triple s p o =>
+    let (h, a) := allocTerm own h s
+    let (h, b) := allocTerm own h p
+    let (h, c) := allocTerm own h o
+    (h, .triple a b c)
 
 /-- `MownStr::clone`: an owned string is copied into a fresh buffer, a borrowed one stays a
 pointer to THE SAME buffer -/
@@ -219,8 +254,6 @@ def copyTerm (h : Heap) : TermRef → Heap × TermRef
     let (h, c) := copyTerm h o
     (h, .triple a b c)
 
-def borrowOf (r : StrRef) : StrRef := { r with owned := false }
-
 /-- `k.as_simple()` = `SimpleTerm::from_term_ref(&k)` followed by the `transmute` to `'static`
 of `ensure_index`: an atom BORROWS every string from `k`; a quoted triple gets its three
 components through `SimpleTerm::<'static>::from_term`, i.e. owned deep copies -/
@@ -254,8 +287,8 @@ def getIndex (h : Heap) (ix : TIndex) (t : Term) : Option Nat :=
 
 /-- `ensure_index`; `none` = `TermIndexFullError`.  The owned copy `SimpleTerm::from_term(t)` is
 made FIRST; it is dropped again when the entry is occupied or the index is full. -/
-def ensureIndex (max : Nat) (h : Heap) (ix : TIndex) (t : Term) : Heap × TIndex × Option Nat :=
-  let (h1, k) := allocTerm h t
+def ensureIndex (own : Bool) (max : Nat) (h : Heap) (ix : TIndex) (t : Term) : Heap × TIndex × Option Nat :=
+  let (h1, k) := allocTerm own h t
   match ix.getIndex h1 t with
   | some i => (h1.freeAll k.ownedIds, ix, some i)
   | none =>
@@ -357,21 +390,21 @@ def HStore.new (shape : Shape) (max : Nat) : HStore :=
   { shape, max, idx := shape.perms.map (fun _ => []) }
 
 /-- `ensure_index` for every term in lookup order (cf. `Store.ensureAll`) -/
-def ensureAllH (max : Nat) (names : List GName) :
+def ensureAllH (own : Bool) (max : Nat) (names : List GName) :
     List Nat → Heap → TIndex → List (Nat × Nat) → Heap × TIndex × Option (List (Nat × Nat))
   | [], h, ix, acc => (h, ix, some acc)
   | c :: cs, h, ix, acc =>
     match names.getD c none with
-    | none => ensureAllH max names cs h ix ((c, max) :: acc)
+    | none => ensureAllH own max names cs h ix ((c, max) :: acc)
     | some t =>
-      match ix.ensureIndex max h t with
+      match ix.ensureIndex own max h t with
       | (h', ix', none) => (h', ix', none)
-      | (h', ix', some i) => ensureAllH max names cs h' ix' ((c, i) :: acc)
+      | (h', ix', some i) => ensureAllH own max names cs h' ix' ((c, i) :: acc)
 
 /-- `MutableDataset::insert` / `MutableGraph::insert` (cf. `Store.insert`; the row part is the same) -/
-def HStore.insert (h : Heap) (s : HStore) (q : Quad) : Heap × HStore × Option Bool :=
+def HStore.insert (own : Bool) (h : Heap) (s : HStore) (q : Quad) : Heap × HStore × Option Bool :=
   let names := quadNames s.shape.n q
-  match ensureAllH s.max names s.shape.lookupOrder h s.ix [] with
+  match ensureAllH own s.max names s.shape.lookupOrder h s.ix [] with
   | (h', ix, none) => (h', { s with ix }, none)
   | (h', ix, some a) =>
     let c := rowOfAssoc s.shape.n a
@@ -436,6 +469,9 @@ def HStore.readAll (h : Heap) (s : HStore) : Heap :=
 structure World where
   heap : Heap := {}
   stores : List (Nat × HStore) := []
+  /-- how the caller's terms reach the stores from now on: through accessors returning owned (`true`) or
+  borrowed (`false`) `MownStr`s — which branch of `ensure_owned` every insertion takes (`feedStr`) -/
+  own : Bool := false
   deriving Repr, Inhabited
 
 inductive Op where
@@ -452,6 +488,7 @@ inductive Op where
   | take (a b : Nat)           -- `let b = std::mem::take(&mut a);`
   | grow (a : Nat)             -- the hash table / the vector reallocate
   | readAll (a : Nat)          -- iterate `quads()` / `triples()` / `get_term(0..len)`
+  | via (own : Bool)           -- from now on the caller's terms have accessors returning owned / borrowed strings
   deriving Repr, Inhabited
 
 inductive Res where
@@ -485,14 +522,14 @@ def step (ck : CloneKind) (w : World) : Op → World × Res
     | some s =>
       if s.shape.n = 0 then (w, .bad)
       else
-        match s.insert w.heap q with
+        match s.insert w.own w.heap q with
         | (h, s', none) => ({ w with heap := h }.set a s', .full)
         | (h, s', some b) => ({ w with heap := h }.set a s', .flag b)
     | none => (w, .bad)
   | .ens a t =>
     match w.get a with
     | some s =>
-      match s.ix.ensureIndex s.max w.heap t with
+      match s.ix.ensureIndex w.own s.max w.heap t with
       | (h, ix, none) => ({ w with heap := h }.set a { s with ix }, .full)
       | (h, ix, some i) => ({ w with heap := h }.set a { s with ix }, .idx i)
     | none => (w, .bad)
@@ -548,6 +585,7 @@ def step (ck : CloneKind) (w : World) : Op → World × Res
     match w.get a with
     | some s => ({ w with heap := s.readAll w.heap }, .ok)
     | none => (w, .bad)
+  | .via own => ({ w with own }, .ok)
 
 def run (ck : CloneKind) (w : World) (ops : List Op) : World := ops.foldl (fun w op => (step ck w op).1) w
 
@@ -647,5 +685,72 @@ def run (ck : CloneKind) (te : Bool) (xw : XWorld) (ops : List XOp) : XWorld :=
   ops.foldl (fun xw op => (step ck te xw op).1) xw
 
 end XWorld
+
+/-! ### the value-semantics specification: stores are VALUES
+
+What the property demands of clones, stated without any heap: a world of named stores of the value-level
+model `SophiaModel.Store` (the one C01's theorems are about), where `clone` COPIES the value, `drop` forgets it,
+moves rename it, and an operation on one name never touches another.  `World.vview` reads a world of the
+ownership model as such a world; that `World.step` refines `VWorld.step` is `vview_step` (Props/C10.lean). -/
+
+abbrev VWorld := List (Nat × St)
+
+namespace VWorld
+
+def get (v : VWorld) (n : Nat) : Option St := (v.find? (·.1 == n)).map (·.2)
+def set (v : VWorld) (n : Nat) (s : St) : VWorld := v.map (fun e => if e.1 == n then (n, s) else e)
+def add (v : VWorld) (n : Nat) (s : St) : VWorld := v ++ [(n, s)]
+def del (v : VWorld) (n : Nat) : VWorld := v.filter (·.1 != n)
+
+def step (v : VWorld) : Op → VWorld
+  | .new a shape max =>
+    match v.get a with
+    | some _ => v
+    | none => v.add a (St.new shape max)
+  | .ins a q =>
+    match v.get a with
+    | some s => if s.shape.n = 0 then v else v.set a (Store.insert s q).1
+    | none => v
+  | .ens a t =>
+    match v.get a with
+    | some s =>
+      match Store.ensureIndex s.max s.terms t with
+      | some (terms, _) => v.set a { s with terms }
+      | none => v
+    | none => v
+  | .rem a q =>
+    match v.get a with
+    | some s => if s.shape.n = 0 then v else v.set a (Store.remove s q).1
+    | none => v
+  | .clone a b =>
+    match v.get a, v.get b with
+    | some s, none => v.add b s
+    | _, _ => v
+  | .cloneFrom a b =>
+    match v.get a, v.get b with
+    | some s, some _ => if a == b then v else v.set b s
+    | _, _ => v
+  | .drop a =>
+    match v.get a with
+    | some _ => v.del a
+    | none => v
+  | .swap a b =>
+    match v.get a, v.get b with
+    | some sa, some sb => if a == b then v else (v.set a sb).set b sa
+    | _, _ => v
+  | .mv a b =>
+    match v.get a, v.get b with
+    | some s, none => (v.del a).add b s
+    | _, _ => v
+  | .take a b =>
+    match v.get a, v.get b with
+    | some s, none => (v.set a (St.new s.shape s.max)).add b s
+    | _, _ => v
+  | .box _ | .grow _ | .readAll _ | .via _ => v
+
+end VWorld
+
+/-- a world of the ownership model read as a world of values -/
+def World.vview (w : World) : VWorld := w.stores.map (fun e => (e.1, e.2.view w.heap))
 
 end SophiaModel.Heap
